@@ -233,7 +233,23 @@ class Tree:
             types[n] = ["struct", s["instrs"], s["module"], self.struct_fixed_size(n)]
         classes = []
         for n, s in self.structs.items():
-            classes.append({"name": n, "module": s["module"], "instrs": s["instrs"], "packet": None})
+            classes.append({"name": n, "module": s["module"], "instrs": s["instrs"], "packet": None, "case": False, "entry": False})
         for p in self.packets:
-            classes.append({"name": p["name"], "module": p["module"], "instrs": p["instrs"], "packet": [p["family"], p["action"]]})
+            classes.append({"name": p["name"], "module": p["module"], "instrs": p["instrs"], "packet": [p["family"], p["action"]], "case": False, "entry": False})
+        # case-data classes are generated classes with a public serialize/deserialize of their own
+        for c in list(classes):
+            self._case_classes(c["name"], c["module"], c["instrs"], classes, False)
         return types, classes
+
+    def _case_classes(self, owner, module, instrs, out, in_chunk):
+        """entry = the case body is generated inside a chunked section, so the class is only ever entered in chunked /
+        sanitising mode (its <break> instructions rely on it)"""
+        for ins in instrs:
+            if ins[0] == "chunked":
+                self._case_classes(owner, module, ins[1], out, True)
+            elif ins[0] == "switch":
+                for c in ins[2]:
+                    if len(c[3]) > 0:
+                        qual = owner + "." + pascal(ins[1]) + "Data" + c[2]
+                        out.append({"name": qual, "module": module, "instrs": c[3], "packet": None, "case": True, "entry": in_chunk})
+                        self._case_classes(qual, module, c[3], out, in_chunk)
